@@ -22,5 +22,7 @@ for P in "$@"; do
   ( cd /verif && bin/check $P 2>/dev/null | grep -E "VIOLATION|KNOWN" | cut -c1-300; echo "$P rc=$?" )
 done
 git -C /repo checkout -- . 
+# evidence written while the change was applied describes the mutated tree: never keep it
+git -C /verif checkout -- evidence/ 2>/dev/null
 git -C /repo status --short | head -3
 rm -rf /tmp/mutdemo
